@@ -487,6 +487,11 @@ func c11GenRecon(r *Rng, x c11XrdS) *c11Recon {
 	if r.Chance(1, 6) {
 		return rc // no CRD yet
 	}
+	// what the API server says about the stored CRDs: usually established; sometimes not (yet), or
+	// with several conditions of which the FIRST of type Established counts
+	if r.Chance(2, 5) {
+		rc.StoredConds = Pick(r, c11StoredCondVariants)
+	}
 	p := c11CloneXrd(x)
 	p.Meta = nil
 	names := func(n *c11Names, kind string) {
@@ -540,7 +545,35 @@ func c11GenRecon(r *Rng, x c11XrdS) *c11Recon {
 		}
 	}
 	rc.Prev = &p
+	switch r.Intn(6) {
+	case 0, 1:
+		// the stored CRDs lack the controller reference; in half of these they equal the derived CRDs in
+		// everything else (restored from a backup, orphaned and re-applied, reference removed by hand)
+		rc.StoredOwners = Pick(r, []string{"none", "plain"})
+		if r.Bool() {
+			q := c11CloneXrd(x)
+			q.Meta = nil
+			rc.Prev = &q
+			rc.ExtraLabels, rc.ExtraAnnotations = map[string]string{}, map[string]string{}
+		}
+	case 2:
+		// one long-lived process: an earlier, different XRD of the same name and generation came and went
+		rc.Live = true
+	}
 	return rc
+}
+
+var c11StoredCondVariants = [][][]string{
+	{},
+	{{"Established", "False"}},
+	{{"Established", "Unknown"}},
+	{{"NamesAccepted", "True"}},
+	{{"NamesAccepted", "True"}, {"Established", "True"}},
+	{{"NamesAccepted", "False"}, {"Established", "False"}},
+	{{"Established", "False"}, {"Established", "True"}},
+	{{"Established", "True"}, {"Established", "False"}},
+	{{"Terminating", "True"}, {"NamesAccepted", "True"}, {"Established", "True"}},
+	{{"established", "True"}},
 }
 
 func c11CloneXrd(x c11XrdS) c11XrdS {
@@ -902,6 +935,31 @@ func c11Sweep() []c11Scn {
 				c11Scn{Xrd: c11CloneXrd(p), Recon: &c11Recon{Prev: func() *c11XrdS { c := c11CloneXrd(cur); return &c }(), ExtraLabels: map[string]string{"team": "ops"}, ExtraAnnotations: map[string]string{"note": "by hand"}, Rounds: 1}})
 		}
 		out = append(out, c11Scn{Xrd: c11CloneXrd(cur), Recon: &c11Recon{ExtraLabels: map[string]string{}, ExtraAnnotations: map[string]string{}, Rounds: 2}})
+		for _, owners := range []string{"none", "plain"} {
+			// equal to the derived CRDs in everything but the owner reference
+			pp := c11CloneXrd(cur)
+			out = append(out, c11Scn{Xrd: c11CloneXrd(cur), Recon: &c11Recon{Prev: &pp, ExtraLabels: map[string]string{}, ExtraAnnotations: map[string]string{}, Rounds: 2, StoredOwners: owners}})
+			// ... and differing in a label as well
+			out = append(out, c11Scn{Xrd: c11CloneXrd(cur), Recon: &c11Recon{Prev: &pp, ExtraLabels: map[string]string{"team": "ops"}, ExtraAnnotations: map[string]string{}, Rounds: 1, StoredOwners: owners}})
+		}
+		// one long-lived process: an earlier XRD of the same name and generation with another schema /
+		// an extra version was reconciled and deleted before the current one was created
+		for _, e := range []func(p *c11XrdS){
+			func(p *c11XrdS) {
+				p.Versions = []c11Version{version("v1", true, map[string]any{"type": "object", "properties": map[string]any{"spec": map[string]any{"type": "object", "properties": map[string]any{"earlier": map[string]any{"type": "string"}}}}})}
+			},
+			func(p *c11XrdS) {
+				p.Versions = append(p.Versions, version("v0", false, map[string]any{"type": "object"}))
+			},
+		} {
+			pp := c11CloneXrd(cur)
+			e(&pp)
+			out = append(out, c11Scn{Xrd: c11CloneXrd(cur), Recon: &c11Recon{Prev: &pp, ExtraLabels: map[string]string{}, ExtraAnnotations: map[string]string{}, Rounds: 2, Live: true}})
+		}
+		for _, conds := range c11StoredCondVariants {
+			pp := c11CloneXrd(cur)
+			out = append(out, c11Scn{Xrd: c11CloneXrd(cur), Recon: &c11Recon{Prev: &pp, ExtraLabels: map[string]string{}, ExtraAnnotations: map[string]string{}, Rounds: 2, StoredConds: conds}})
+		}
 	}
 	// the author's top-level schema tries to alter the envelope
 	for _, top := range []map[string]any{
